@@ -1739,3 +1739,27 @@ mut("C16", "operator-after-quote-glued", "R16-5|parsers::parser_line::parse_line
 mut("C04", "redirect-after-quote-glued", "R04-11|parsers::parser_line::parse_line|redirect-after-quote",
     "a > right after a closing quote joins the quoted word again",
     (P, """        if semi_ok && (c == ';' || c == '&' || c == '>') {""", """        if semi_ok && (c == ';' || c == '&') {"""))
+
+mut("C16", "pipe-token-without-lookahead", "R16-6|parsers::parser_line::parse_line|single-pipe-lookahead",
+    "one of the places that emit `|` loses its look-ahead for `||`",
+    (P, """            } else if !met_parenthesis && sep_second.is_empty() && sep.is_empty() {
+                if sep.is_empty() && !sep_made.is_empty() {
+                    result.push((sep_made.to_string(), token));
+                    sep_made = String::new();
+                } else {
+                    result.push((String::from(""), token));
+                }
+                // `a||b` written without blanks: one `||`, not two pipes
+                if i + 1 < count_chars && line.chars().nth(i + 1) == Some('|') {
+                    result.push((String::from(""), "||".to_string()));
+                    skip_next = true;
+                } else {
+                    result.push((String::from(""), "|".to_string()));
+                }""", """            } else if !met_parenthesis && sep_second.is_empty() && sep.is_empty() {
+                if sep.is_empty() && !sep_made.is_empty() {
+                    result.push((sep_made.to_string(), token));
+                    sep_made = String::new();
+                } else {
+                    result.push((String::from(""), token));
+                }
+                result.push((String::from(""), "|".to_string()));"""))
